@@ -3,7 +3,10 @@ package km
 import (
 	"fmt"
 	"os"
+	"sort"
 	"strings"
+
+	"golang.org/x/tools/go/ssa"
 )
 
 // DumpHook lets other packages add debugging views.
@@ -28,6 +31,34 @@ func Dump(p *Prog, what string) {
 			fmt.Printf("%-8s %-45s %-60s %s %s\n", r.Mux, r.Pattern, h, r.Pos, r.Cond)
 		}
 		fmt.Println(len(rs), "routes")
+	case what == "addrtaken":
+		g := BuildCallGraph(p)
+		var names []string
+		for f, sites := range g.AddrTaken {
+			names = append(names, fmt.Sprintf("%-70s static-callers=%d taken-at=%s", FuncName(f), len(g.Callers[f]), p.InstrPos(sites[0].Instr)))
+		}
+		sort.Strings(names)
+		for _, n := range names {
+			fmt.Println(n)
+		}
+	case what == "dyncalls":
+		n := 0
+		for _, f := range p.AllFuncs {
+			for _, b := range f.Blocks {
+				for _, in := range b.Instrs {
+					ci, ok := in.(ssa.CallInstruction)
+					if !ok || ci.Common().IsInvoke() || StaticCallee(ci.Common()) != nil {
+						continue
+					}
+					if _, isB := ci.Common().Value.(*ssa.Builtin); isB {
+						continue
+					}
+					n++
+					fmt.Printf("%s  %s  %s  %s\n", p.InstrPos(in), FuncName(f), ci.Common().Value.Type(), ci.Common().Value)
+				}
+			}
+		}
+		fmt.Println(n, "dynamic calls")
 	case what == "funcs":
 		for _, f := range p.AllFuncs {
 			fmt.Println(FuncName(f))
